@@ -45,6 +45,17 @@ FLOAT_AXIOMS = {
 }
 
 
+# coqc parses and evaluates large generated case files recursively: give the children
+# (they inherit the limit) as much stack as the hard limit allows
+try:
+    import resource as _resource
+    _soft, _hard = _resource.getrlimit(_resource.RLIMIT_STACK)
+    if _soft != _hard:
+        _resource.setrlimit(_resource.RLIMIT_STACK, (_hard, _hard))
+except Exception:
+    pass
+
+
 def log(*a):
     print(*a, flush=True)
 
@@ -578,7 +589,12 @@ def do_replay(ctx, replay):
         return 2
     log("model/implementation disagreement: %s" % ("yes" if mm else "no"))
     log("property oracle rejects implementation output: %s" % ("yes" if bad else "no"))
-    if bad:
+    kfs = known_findings(spec.prop)
+    unknown = [(c, kf) for (c, kf) in bad if not (kf != 0 and kf in kfs)]
+    for (c, kf) in bad:
+        if kf != 0 and kf in kfs:
+            log("KNOWN-FINDING: property=%s kf=%d %s" % (spec.prop, kf, kfs[kf]))
+    if unknown or mm:
         log("VIOLATION property=%s replay=%s" % (spec.prop, replay))
         return 1
     return 0
